@@ -1691,7 +1691,7 @@ class Sym:
         env[n] = Uv(why)
 
     def merge_envs(self, c: Bv, e1: dict, e2: dict, env: dict):
-        for k in set(e1) | set(e2):
+        for k in dict.fromkeys(list(e1) + list(e2)):   # deterministic order (the generated text must not depend on hashing)
             a, b = e1.get(k), e2.get(k)
             if a is None or b is None:
                 env[k] = Uv('assigned on one branch only')
